@@ -141,8 +141,7 @@ def toyEnv : Env :=
               { kind := .basic, str := "int", name := "int" },
               { kind := .named, str := "p.S", name := "S", pkgPath := some "p", isStruct := true,
                 fields := [⟨"In", 0⟩] } ],
-    assignable := fun a b => a == b, convertible := fun a b => a == b, lookup := fun _ _ => .none,
-    scopeHas := fun _ => true, pkgPath := "p", imports := [], stringTy := 1 }
+    assignable := fun a b => a == b, convertible := fun a b => a == b, lookup := fun _ _ => .none, pkgPath := "p", imports := [], stringTy := 1 }
 
 def exactEng : Engine where
   compiles := fun _ => true
